@@ -47,6 +47,7 @@ def run(P, R, tier):
     index_path(P, R, pg)
     containers(P, R)
     sindex_writers(P, R)
+    common.forward(P, R, 'C03', ['C03.a', 'C03.b', 'C03.c', 'C03.d', 'C03.e', 'C03.f', 'C03.g', 'C03.h'], 'C04.e', 'cx with a spatial index is exact only if the R-tree answers exactly', floor=10)
 
 
 # ------------------------------------------------------------------------------------------------------------------
@@ -284,20 +285,20 @@ def containers(P, R):
             construct='super().__init__(obj._sindex)')
 
 
-def sindex_writers(P, R):
+def sindex_writers(P, R, rule='C04.d'):
     E = effects(P)
     n = 0
     for f, node, recv, attr in E.attr_writes:
         if attr == '_sindex':
             n += 1
             ok = f.qualname in common.CACHE_ATTR_WRITERS['_sindex']
-            R.check(ok, 'C04.d', f, node, f'`_sindex` is written by {f.qualname} (constructor / build_sindex / indexer holder)',
+            R.check(ok, rule, f, node, f'`_sindex` is written by {f.qualname} (constructor / build_sindex / indexer holder)',
                     f'`_sindex` is written in {f.qualname}: an index built for other rows can be carried over to a derived array (stale row numbers)')
-    R.floor('C04.d', 'writers of _sindex', n, 2)
+    R.floor(rule, 'writers of _sindex', n, 2)
     # constructor sets None; build_sindex builds from self.bounds
     init = P.func(MOD, 'GeometryArray.__init__')
     ok = any(isinstance(s, ast.Assign) and norm(s.targets[0]) == 'self._sindex' and norm(s.value) == 'None' for s in walk_own(init.node))
-    R.check(ok, 'C04.d', init, None, 'every new array starts without an index', 'a new array does not start with _sindex = None', construct='self._sindex = None')
+    R.check(ok, rule, init, None, 'every new array starts without an index', 'a new array does not start with _sindex = None', construct='self._sindex = None')
     bs = P.func(MOD, 'GeometryArray.build_sindex')
     ok = False
     arg0 = None
@@ -305,6 +306,6 @@ def sindex_writers(P, R):
         if isinstance(s, ast.Assign) and norm(s.targets[0]) == 'self._sindex' and isinstance(s.value, ast.Call) and s.value.args:
             arg0 = astq.trace(bs, s.value.args[0])
             ok = isinstance(arg0, ast.AST) and norm(arg0) == 'self.bounds'
-    R.check(ok, 'C04.d', bs, None, 'the index is built from ALL rows of the array\'s own bounds, in array order (row numbers = array positions)',
+    R.check(ok, rule, bs, None, 'the index is built from ALL rows of the array\'s own bounds, in array order (row numbers = array positions)',
             f'build_sindex builds the index from `{norm(arg0) if isinstance(arg0, ast.AST) else arg0}` instead of self.bounds: the row numbers it returns are not positions in the array',
             construct='self._sindex = HilbertRtree(self.bounds, ...)')
